@@ -45,7 +45,7 @@ var (
 	c08Queries = []string{"", "a=b", "a=1&a=2", "q=%26%3D", "empty=", "+", "tags=red;green&page=2", "bad=%zz&ok=1"}
 	c08Hdrs    = []string{"none", "multi", "authorization", "cookie", "host-port", "forwarded"}
 	c08Bodies  = []string{"0", "1", "64k+1", "1M-chunked"}
-	c08Resps   = []string{"200", "201-location", "204", "301", "404", "500", "set-cookies", "chunked", "trailer"}
+	c08Resps   = []string{"200", "201-location", "204", "301", "404", "500", "set-cookies", "chunked", "trailer", "404-empty", "500-empty"}
 )
 
 func c08Body(kind string) []byte {
@@ -119,6 +119,14 @@ func (u *c08Upstream) ServeHTTP(w http.ResponseWriter, r *http.Request) {
 	case "500":
 		w.WriteHeader(500)
 		_, _ = w.Write([]byte("boom"))
+	case "404-empty", "500-empty":
+		// an error status with its own content type and no body at all
+		h.Set("Content-Type", "application/problem+json")
+		if r.Header.Get("X-Verif-Shape") == "404-empty" {
+			w.WriteHeader(404)
+		} else {
+			w.WriteHeader(500)
+		}
 	case "set-cookies":
 		h.Add("Set-Cookie", "a=1; Path=/")
 		h.Add("Set-Cookie", "b=2; HttpOnly")
@@ -165,6 +173,12 @@ func c08Expected(shape string) (status int, body string, hdr map[string][]string
 		return 404, "nope", hdr, ""
 	case "500":
 		return 500, "boom", hdr, ""
+	case "404-empty":
+		hdr["Content-Type"] = []string{"application/problem+json"}
+		return 404, "", hdr, ""
+	case "500-empty":
+		hdr["Content-Type"] = []string{"application/problem+json"}
+		return 500, "", hdr, ""
 	case "set-cookies":
 		hdr["Set-Cookie"] = []string{"a=1; Path=/", "b=2; HttpOnly", "a=3"}
 		return 200, "cookies", hdr, ""
